@@ -20,25 +20,20 @@ fn words(inp: &[u8], off: usize) -> [u32; 4] {
     [take_u32(inp, off), take_u32(inp, off + 4), take_u32(inp, off + 8), take_u32(inp, off + 12)]
 }
 
-// ---- S-box layer as uninterpreted function of (S-box index 0..8, 128-bit state)
+// ---- concrete S-box layers on packed states (native replay)
 fn s_native(i: u8, x: u128) -> u128 {
     pack(r::apply_s(i as usize, unpack(x)))
 }
 fn si_native(i: u8, x: u128) -> u128 {
     pack(r::apply_s_inv(i as usize, unpack(x)))
 }
-uf2!(uf_s, u8, u128, u128, [B0 B1], s_native);
-uf2!(uf_si, u8, u128, u128, [B0], si_native);
-pub fn stub_s(index: usize, w: [u32; 4]) -> [u32; 4] {
-    unpack(uf_s::call((index % 8) as u8, pack(w)))
-}
-pub fn stub_si(index: usize, w: [u32; 4]) -> [u32; 4] {
-    unpack(uf_si::call((index % 8) as u8, pack(w)))
-}
-
-// ---- S-box layers as uninterpreted bijections, one pair (S_i, S_i^-1) per index
+// One uninterpreted function per S-box index (the index is a constant at every call site, so calls with
+// different indices never have to be compared): us<i> for S_i, ui<i> for S_i^-1; and one uninterpreted bijection
+// pair bij<i> = (S_i, S_i^-1) for the round trips.
 macro_rules! sbij {
-    ($m:ident, $f:ident, $g:ident, $i:expr) => {
+    ($m:ident, $us:ident, $ui:ident, $f:ident, $g:ident, $i:expr) => {
+        uf1!($us, u128, u128, [B0], $f);
+        uf1!($ui, u128, u128, [B0], $g);
         fn $f(x: u128) -> u128 {
             s_native($i, x)
         }
@@ -48,14 +43,40 @@ macro_rules! sbij {
         uf_bij!($m, u128, [B0], $f, $g);
     };
 }
-sbij!(bij0, s0f, s0i, 0);
-sbij!(bij1, s1f, s1i, 1);
-sbij!(bij2, s2f, s2i, 2);
-sbij!(bij3, s3f, s3i, 3);
-sbij!(bij4, s4f, s4i, 4);
-sbij!(bij5, s5f, s5i, 5);
-sbij!(bij6, s6f, s6i, 6);
-sbij!(bij7, s7f, s7i, 7);
+sbij!(bij0, us0, ui0, s0f, s0i, 0);
+sbij!(bij1, us1, ui1, s1f, s1i, 1);
+sbij!(bij2, us2, ui2, s2f, s2i, 2);
+sbij!(bij3, us3, ui3, s3f, s3i, 3);
+sbij!(bij4, us4, ui4, s4f, s4i, 4);
+sbij!(bij5, us5, ui5, s5f, s5i, 5);
+sbij!(bij6, us6, ui6, s6f, s6i, 6);
+sbij!(bij7, us7, ui7, s7f, s7i, 7);
+pub fn stub_s(index: usize, w: [u32; 4]) -> [u32; 4] {
+    let x = pack(w);
+    unpack(match index % 8 {
+        0 => us0::call(x),
+        1 => us1::call(x),
+        2 => us2::call(x),
+        3 => us3::call(x),
+        4 => us4::call(x),
+        5 => us5::call(x),
+        6 => us6::call(x),
+        _ => us7::call(x),
+    })
+}
+pub fn stub_si(index: usize, w: [u32; 4]) -> [u32; 4] {
+    let x = pack(w);
+    unpack(match index % 8 {
+        0 => ui0::call(x),
+        1 => ui1::call(x),
+        2 => ui2::call(x),
+        3 => ui3::call(x),
+        4 => ui4::call(x),
+        5 => ui5::call(x),
+        6 => ui6::call(x),
+        _ => ui7::call(x),
+    })
+}
 pub fn bij_s(index: usize, w: [u32; 4]) -> [u32; 4] {
     let x = pack(w);
     unpack(match index % 8 {
@@ -107,7 +128,7 @@ verif_harness! {
     }
 }
 
-//@ harness name=serpent_leaf_sbox_bij prop=C01 tier=quick bits=192 est=30 desc="L: apply_s_inv(i, apply_s(i, x)) == x and apply_s(i, apply_s_inv(i, x)) == x for every index and every 128-bit x (justifies the uninterpreted bijections of the round-trip harnesses)"
+//@ harness name=serpent_leaf_sbox_bij prop=C01,C03 tier=quick bits=192 est=30 desc="L: apply_s_inv(i, apply_s(i, x)) == x and apply_s(i, apply_s_inv(i, x)) == x for every index and every 128-bit x (justifies the uninterpreted bijections of the round-trip harnesses)"
 verif_harness! {
     name: serpent_leaf_sbox_bij,
     bytes: 24,
